@@ -1,4 +1,4 @@
-from harness.common import Prop, canon
+from harness.common import Prop, canon, scale
 from harness import gen_build as G
 
 
@@ -18,7 +18,7 @@ class C13(Prop):
         return {k: v for k, v in c.items() if k != '_info'}
 
     def streams(self, rng, tier):
-        n = 150 if tier == 'quick' else 6000
+        n = 150 if tier == 'quick' else scale(8000)
         valid, faulty = [], []
         for _ in range(n):
             c = G.gen_case(rng)
